@@ -71,7 +71,7 @@ macro_rules! parts {
             sys: $sys,
             cfgs: match tier {
                 Tier::Quick => {
-                    let mut v = cfgs(&[(2, 2), (2, 3), (1, 3), (2, 4)], &[None]);
+                    let mut v = cfgs(&[(2, 2), (2, 3), (1, 3)], &[None]);
                     v.push(Cfg::new(2, 3, Some(0)));
                     v
                 }
@@ -83,7 +83,7 @@ macro_rules! parts {
             },
             alphabet: &alpha,
             depth: tier.pick(4, 5),
-            seconds: tier.pick(40.0, 2400.0),
+            seconds: tier.pick(75.0, 2400.0),
             validated: true,
             nontrivial: Some("lockstep_transitions"),
         }
